@@ -640,39 +640,53 @@ structure HostPort where
   host     : Option Str
 deriving Repr, DecidableEq
 
+/-- the user-info split of `parse_hostport`: `rsplit("@", 1)` if there is an `@`, then
+`split(":", 1)` of the user part if it has a `:`.  Returns user, password, host part. -/
+def splitUserinfo (s : Str) : Option Str × Option Str × Str :=
+  let (username, host) : Option Str × Str :=
+    if s.contains '@' then ((some (rsplit1 '@' s).1), (rsplit1 '@' s).2) else (none, s)
+  let (username, password) : Option Str × Option Str :=
+    match username with
+    | some u => if u.contains ':' then (some (split1 ':' u).1, some (split1 ':' u).2) else (some u, none)
+    | none => (none, none)
+  (username, password, host)
+
+/-- the `if ":" in host:` block of `parse_hostport`: port and host of the host part -/
+def hostPart (host : Str) : Except Exc (Option Nat × Option Str) :=
+  if host.contains ':' then
+    match ipAddress host with
+    | some ip => .ok (none, some (ipToStr ip))
+    | none =>
+      match urlparseHost host with
+      | .error e => .error e
+      | .ok parsed =>
+        let host' : Option Str :=
+          match parsed.hostname with
+          | none => none                    -- `ip_address(None)` raises ValueError → `host = None`
+          | some hn =>
+            match ipAddress hn with
+            | some ip => some (ipToStr ip)
+            | none => some hn
+        match urlPort parsed.port with
+        | .error e => .error e
+        | .ok port => .ok (port, host')
+  else .ok (none, some host)
+
+/-- `if password is None or len(password) == 0: password = None` -/
+def normPassword (p : Option Str) : Option Str :=
+  match p with
+  | some p => if p.isEmpty then none else some p
+  | none => none
+
 /-- `ssh.parse_hostport`. The argument is `None` (`none`) or a string. -/
 def parseHostport (r : Option Str) : Except Exc HostPort :=
   match r with
   | none => .ok ⟨none, none, none, none⟩
   | some s =>
     if s.isEmpty then .ok ⟨none, none, none, none⟩ else
-    let (username, host) : Option Str × Str :=
-      if s.contains '@' then ((some (rsplit1 '@' s).1), (rsplit1 '@' s).2) else (none, s)
-    let (username, password) : Option Str × Option Str :=
-      match username with
-      | some u => if u.contains ':' then (some (split1 ':' u).1, some (split1 ':' u).2) else (some u, none)
-      | none => (none, none)
-    let password := match password with
-      | some p => if p.isEmpty then none else some p
-      | none => none
-    if host.contains ':' then
-      match ipAddress host with
-      | some ip => .ok ⟨username, password, none, some (ipToStr ip)⟩
-      | none =>
-        match urlparseHost host with
-        | .error e => .error e
-        | .ok parsed =>
-          let host' : Option Str :=
-            match parsed.hostname with
-            | none => none                    -- `ip_address(None)` raises ValueError → `host = None`
-            | some hn =>
-              match ipAddress hn with
-              | some ip => some (ipToStr ip)
-              | none => some hn
-          match urlPort parsed.port with
-          | .error e => .error e
-          | .ok port => .ok ⟨username, password, port, host'⟩
-    else .ok ⟨username, password, none, some host⟩
+    match hostPart (splitUserinfo s).2.2 with
+    | .error e => .error e
+    | .ok (port, host) => .ok ⟨(splitUserinfo s).1, normPassword (splitUserinfo s).2.1, port, host⟩
 
 /-! ## environment variable + command line, `store` actions -/
 
